@@ -26,7 +26,11 @@ var messages = []string{"\x00none", "m", "ab", "中", "说明文字", "a=b", "x~
 	// messages that mention the label words themselves: the label is still prepended, exactly once
 	"see explain: at least 1", "字段说明: 不能超过 100", "explain:", "说明:", "explain: twice explain:",
 	// white space at the edges of a message is part of the message
-	"must be set ", " m", "\t", "必填\u3000", " ", "ends with a backslash \\"}
+	"must be set ", " m", "\t", "必填\u3000", " ", "ends with a backslash \\",
+	// lengths around the sizes at which fixed buffers end (rule text of 60..70 bytes with the usual keys and values)
+	strings.Repeat("x", 47), strings.Repeat("x", 48), strings.Repeat("x", 49), strings.Repeat("x", 50), strings.Repeat("x", 51), strings.Repeat("x", 52), strings.Repeat("x", 53), strings.Repeat("x", 54),
+	strings.Repeat("x", 55), strings.Repeat("x", 56), strings.Repeat("x", 57), strings.Repeat("x", 58), strings.Repeat("x", 59), strings.Repeat("x", 60), strings.Repeat("x", 61), strings.Repeat("x", 62),
+	strings.Repeat("x", 63), strings.Repeat("x", 64), strings.Repeat("x", 65), strings.Repeat("中", 18), strings.Repeat("中", 19), strings.Repeat("中", 20), strings.Repeat("中", 21), strings.Repeat("x", 127), strings.Repeat("x", 128), strings.Repeat("x", 255), strings.Repeat("x", 256)}
 
 var zh = regexp.MustCompile("[一-龥]")
 
@@ -341,6 +345,24 @@ func run(c *runner.Ctx) {
 						cls = "slow-path"
 					}
 					c.Violation("split-vs-reference/"+cls, map[string]interface{}{"input": s, "sep": string(sep), "pieces": pieces, "reference": ref})
+				}
+				// the same text split with the other separator right afterwards: the result follows the separator asked for
+				{
+					other := byte('/')
+					if sep == '/' {
+						other = ','
+					}
+					var op []string
+					if other == ',' {
+						op = valid.ValidNamesSplit(s)
+					} else {
+						op = valid.ValidNamesSplit(s, other)
+					}
+					calls++
+					oref := lang.SplitOutsideQuotes(s, other)
+					if !(eqp(oref, op) || (len(oref) > 0 && oref[len(oref)-1] == "" && eqp(oref[:len(oref)-1], op))) {
+						c.Violation("split-with-the-other-separator-afterwards", map[string]interface{}{"input": s, "first_sep": string(sep), "second_sep": string(other), "pieces": op, "reference": oref})
+					}
 				}
 				if !quoted {
 					// differential: force the slow path on a quote-free string
